@@ -6,9 +6,19 @@
 EXTENDS PipelineCompose, Json, IOUtils, TLC
 VARIABLE x
 Obs == ndJsonDeserialize(IOEnv.VERIF_OBS)
-\* the text library of the driver (harness/props/c14.py): post 1 [..], 2 <..>, 3 {..}; finalizer A( , )
-PostText(i) == CASE i = 1 -> [pre |-> <<91>>, suf |-> <<93>>] [] i = 2 -> [pre |-> <<60>>, suf |-> <<62>>]
-                 [] OTHER -> [pre |-> <<123>>, suf |-> <<125>>]
+\* the text library of the driver (harness/props/c14.py): post 1 [..], 2 <..>, 3 {..}, 4 context; finalizer A( , )
+\* post 4 prints " |k1=<value of variable k1> st=<state>" of the pipeline it runs in: the variables are those of the
+\* reference definition, the state is index=win for the windows probe (probe 2) iff item 3 (set_state) is among its items
+RECURSIVE Dec(_)
+Dec(n) == IF n < 10 THEN <<48 + n>> ELSE Dec(n \div 10) \o <<48 + (n % 10)>>
+VarVal(vars, k) == LET J == {j \in 1..Len(vars) : vars[j][1] = k} IN IF J = {} THEN 0 ELSE vars[CHOOSE j \in J : TRUE][2]
+PostText(i, ref, p) ==
+    CASE i = 1 -> [pre |-> <<91>>, suf |-> <<93>>] [] i = 2 -> [pre |-> <<60>>, suf |-> <<62>>]
+      [] i = 4 -> [pre |-> <<>>,
+                   suf |-> <<32,124,107,49,61>> \o Dec(VarVal(ref.vars, 1)) \o <<32,115,116,61>> \o
+                           (IF p = 2 /\ (\E j \in 1..Len(ref.items) : ref.items[j] = 3)
+                            THEN <<123,39,105,110,100,101,120,39,58,32,39,119,105,110,39,125>> ELSE <<123,125>>)]
+      [] OTHER -> [pre |-> <<123>>, suf |-> <<125>>]
 FinText(i) == [pre |-> <<65, 40>>, sep |-> <<32, 44, 32>>, suf |-> <<41>>]
 
 Clause(o) ==
@@ -16,7 +26,7 @@ Clause(o) ==
         (IF (~o.got.ok /\ ~o.got.sigma) \/ (~o.ref.ok /\ ~o.ref.sigma) THEN "NonSigmaException" ELSE "CompositionFails")
     ELSE LET ref == o.case.ref
              staged == [p \in 1..Len(o.raw.out) |->
-                          Staged([j \in 1..Len(ref.post) |-> PostText(ref.post[j])],
+                          Staged([j \in 1..Len(ref.post) |-> PostText(ref.post[j], ref, p)],
                                  \* (convert_rule() yields the queries of one rule: output finalizers do not run)
                                  IF o.case.op = "backend_switch" THEN <<>> ELSE [j \in 1..Len(ref.fin) |-> FinText(ref.fin[j])], o.raw.out[p])]
          IN
